@@ -14,6 +14,7 @@
 package store
 
 import (
+	"bytes"
 	"container/list"
 	"errors"
 	"fmt"
@@ -270,6 +271,11 @@ func (s *CAStore) addToMemoryCache(
 	metaInfo, err := s.generateMetadataFromBytes(name, data, pieceLength)
 	if err != nil {
 		return fmt.Errorf("generating metainfo: %w", err)
+	}
+	// The entry is served to readers as soon as it is added, long before the
+	// drain re-verifies it on its way to disk: verify the digest here.
+	if err := s.verify(bytes.NewReader(data), name); err != nil {
+		return fmt.Errorf("verify digest: %s", err)
 	}
 
 	entry := &cache.MemoryEntry{
